@@ -5,22 +5,22 @@ CLAIMED = sys.argv[1].split(',') if len(sys.argv) > 1 else []
 T = {
  "C01": ("codec layout tables agree between decoder and encoder; decoded frames never alias the read buffer; fast path only patches the request id and is gated on the dirty bits; narrowing length conversions are refused; TCP relay forwards a clone and closes with flush", "layout extraction + alias taint + guarded conversion on SSA", "HTTP/1.1 and HTTP/2 URI/header/body value fidelity; tars re-encode equality"),
  "C02": ("request id restored before every encode; stream table only touched under its mutex; entry removed before dispatch; id generators atomic; one Write = one critical section; reset ping-pong clients are closed, not pooled", "must-precede + lockset + sibling cross-check on SSA", "behaviour under concrete interleavings"),
- "C03": ("one-shot tokens are atomic-only; terminal handlers run only on the CAS-winner edge; the reply is produced only by the worker phase machine; timers armed on every end-of-request path and stopped before recycle", "atomic-field discipline + dominance + who-may-call", "liveness / time bounds"),
- "C04": ("host normalised to lower case on both sides; lookup order equals the documented precedence; wildcard list sorted longest first; first-match loop in configuration order; route tables under their lock; lookups write no router state", "dataflow + CFG order + lockset + effect analysis", "per-input matcher results (regex, header values)"),
+ "C03": ("one-shot tokens are atomic-only; terminal handlers run only on the CAS-winner edge; the reply is produced only by the worker phase machine; timers armed on every end-of-request path and stopped before recycle; the wake-up token is a confined one-slot channel, sent without blocking and drained before every re-entry of the phase machine", "atomic-field discipline + dominance + who-may-call", "liveness / time bounds"),
+ "C04": ("host normalised to lower case on both sides; lookup order equals the documented precedence; wildcard list sorted longest first; first-match loop in configuration order; route tables under their lock and a route list read under the lock never outlives it while writers update in place; lookups write no router state", "dataflow + CFG order + lockset + effect analysis", "per-input matcher results (regex, header values)"),
  "C05": ("every host a policy returns passed Health() on that path (or is nil); returned hosts come from the balancer's own host set; host set fields are write-once and the snapshot is published by one atomic store; scan loops cover the whole set", "guarded-return analysis (greatest fixed point over SSA phis, modular interprocedural summaries)", "that nil is returned only when no host is healthy beyond the full-scan shape"),
  "C06": ("cumulative-weight scan uses an exact strict idiom so each entry owns exactly w draws and a zero weight is unreachable; draw range = sum of scanned weights with a single writer; EDF deadline update has the 1/weight shape over a min-heap", "pattern + difference reasoning on SSA", "the WRR bounded-lag inequality (numeric)"),
  "C07": ("need-more-data guards are sufficient and tight for every byte the decoder touches; Drain happens after the guard and drains exactly the frame length; short input returns (nil,nil) without draining; matchers answer Again below their read width", "linear non-negative bounds analysis on SSA", "HTTP/2 continuation state, HTTP/1 (fasthttp)"),
  "C08": ("no unguarded index/slice on peer bytes in codecs, matchers and mosn.io/pkg/header; peer-sized allocations only after the frame is buffered; third-party parsers only under recover; read loop under recover+close", "bounds analysis + panic containment + who-may-call", "HPACK / x/net framer fork, hessian/thrift/tars internals"),
  "C09": ("a leased ping-pong client reaches exactly one of {bound to the stream, back in idle list, closed} on every path; close-me flags set on reset are consumed at destroy; idle list and counters under the pool mutex", "typestate/leak check on CFG + write-never-read + lockset", "counter values over histories"),
  "C10": ("every breaker Increase / gauge Inc is paired with its Decrease/Dec by one of four recognised pairing idioms; no unguarded decrement", "pairing table + control equivalence", "that every request eventually terminates"),
- "C11": ("stop-accept precedes drain; drain precedes close/exit; the drain loop is bounded and reads the active-stream gauge", "ordered-call / dominance rules", "everything cross-process: fd passing, transfer, signal timing"),
- "C12": ("every live-state mutator records the config on every success path; new tables are built aside and swapped in one guarded store; no replace-style update inside a loop over parts of one assignment", "must-pass-through + lockset + loop-invariance", "observational equivalence with a fresh start"),
- "C13": ("(verify_client, require_client_cert) -> ClientAuth decision table; InsecureSkipVerify only under insecure_skip or a custom verifier; CA pool feeds RootCAs and ClientCAs; plaintext only behind the inspector branch; SNI -> ALPN -> default order", "decision-table extraction + guarded store + CFG order", "handshake cryptography, certificate matrix"),
+ "C11": ("stop-accept precedes drain; drain precedes close/exit; the drain loop is bounded and reads the active-stream gauge; the read buffer handed over with a connection is its own and is never dropped (or the hand-over tolerates nil)", "ordered-call / dominance rules", "everything cross-process: fd passing, transfer, signal timing"),
+ "C12": ("every live-state mutator records the config on every success path; new tables are built aside and swapped in one guarded store; no replace-style update inside a loop over parts of one assignment; recorders store what they are given on every path (skips only for nil, missing key, whole-value DeepEqual)", "must-pass-through + lockset + loop-invariance", "observational equivalence with a fresh start"),
+ "C13": ("(verify_client, require_client_cert) -> ClientAuth decision table; InsecureSkipVerify only under insecure_skip or a custom verifier; CA pool feeds RootCAs and ClientCAs; plaintext only behind the inspector branch; SNI -> ALPN -> default order; a server name selects a context only through a whole-name or label-boundary comparison after lower-casing", "decision-table extraction + guarded store + CFG order", "handshake cryptography, certificate matrix"),
  "C14": ("no path from a receive-filter run to an upstream send bypasses processError; every hijack API raises directResponse; that branch always leaves for the send-filter phase; the chain iterates once, in index order", "must-pass-through on CFG + must-set + loop shape", "third-party filter behaviour"),
- "C15": ("every subset entry's host set is the HostMatches filter of the cluster set for the entry's own key/values; ChooseHost delegates only to {matched entry, full set when no criteria, fallback}; fallback switch matches the three policies", "value-flow identity + delegation enumeration", "equivalence of the two builders over all inputs"),
+ "C15": ("every subset entry's host set is the HostMatches filter of the cluster set for the entry's own key/values; ChooseHost delegates only to {matched entry, full set when no criteria, fallback}; fallback switch matches the three policies; key/value lists of sibling subsets never share a backing array", "value-flow identity + delegation enumeration", "equivalence of the two builders over all inputs"),
  "C16": ("read-modify-write of the shared health word is a single atomic step; flag algebra shape; threshold automaton resets the opposite counter, compares with the threshold, flips flag and changed together; stale results ignored", "atomic-RMW detector + shape obligations on SSA", "timing of the checker goroutines"),
- "C17": ("header finalisation order route->vhost->global; redirect/direct response return before any pool is touched; retry decided before the response is marked started; budget decremented on every retry path; retry re-selects a host; timeout sources applied lowest priority first", "ordered-call + dominance + last-writer order", "header values, regex rewrites"),
- "C18": ("every DATA payload is sliced by the value awaitFlowControl returned; that value is clamped by window, max frame size and remaining bytes and debited from both windows before return", "value-flow + clamp set", "HPACK/frame wire compatibility with x/net"),
+ "C17": ("header finalisation order route->vhost->global; redirect/direct response return before any pool is touched; retry decided before the response is marked started; budget decremented on every retry path; retry re-selects a host; one global deadline per request, never re-armed by a retry; timeout sources applied lowest priority first", "ordered-call + dominance + last-writer order", "header values, regex rewrites"),
+ "C18": ("every DATA payload is sliced by the value awaitFlowControl returned; that value is clamped by window, max frame size and remaining bytes and debited from both windows before return; every raise of a send window and every stream removal is followed by cond.Broadcast() before the frame handler returns", "value-flow + clamp set + must-pass-through up the caller chain", "HPACK/frame wire compatibility with x/net"),
  "C19": ("every custom (Un)MarshalJSON pair moves the same set of shadow fields in both directions; every json:\"-\" field is covered by such a pair or declared runtime-only; no duplicate keys, no embedded-marshaler hijack; the dump reassembles every effective map", "pair-mirror extraction + type-graph lint", "defaulting / value equivalence, sample configs"),
  "C20": ("every path in the config type graph from a dump root to TLSConfig.PrivateKey is redacted; redaction only writes memory freshly allocated by the redactor; admin handlers reach the config only through the redacting accessors", "type-graph enumeration + access-path abstraction + freshness + who-may-call", "secrets inside untyped map[string]interface{} filter configs"),
 }
